@@ -7,9 +7,9 @@ Arguments N.ltb : simpl never.
 Arguments N.eqb : simpl never.
 
 Section EngineP.
-  Variables W FN FB : N.
+  Variables W FN FB IDX : N.
 
-  Notation e_step := (e_step W FN FB).
+  Notation e_step := (e_step W FN FB IDX).
   Notation drain := (drain FB).
   Notation finalise := (finalise FB).
 
@@ -86,7 +86,7 @@ Section EngineP.
   (* C05: a rejected call leaves the engine exactly as it was. *)
   Theorem reject_no_effect g c : snd (e_step g c) = ORejected -> fst (e_step g c) = g.
   Proof.
-    destruct c as [a idx ts h v|d idx ts h vs|ts h cnt|cnt ts|h ts hg| |hc bl nn pl|n nn pl]; cbn [Engine.e_step].
+    destruct c as [a idx ts h v|d idx ts h vs|ts h cnt|cnt ts|h ts hg| |hc bl nn pl|n nn pl|]; cbn [Engine.e_step].
     - destruct (exec_tx _ _ _ _ _ _ _ _); cbn; [discriminate|reflexivity].
     - destruct d as [| |a n]; cbn; try discriminate; try reflexivity.
       destruct (n =? nonce_of g a).
@@ -101,7 +101,8 @@ Section EngineP.
       destruct (mine _ _ _ _ _); cbn; [discriminate|reflexivity].
     - destruct (find _ _) as [b|].
       + destruct (snd b =? _); cbn; [discriminate|reflexivity].
-      + destruct (exec_tx g 0 (nonce_of g 0) 0 ts (resolve_hash h hg) hg true) as [g1|] eqn:He; cbn; [|reflexivity].
+      + destruct (negb (hg =? next_h g) || negb (nonce_of g IDX =? 0)); cbn; [reflexivity|].
+        destruct (exec_tx g IDX (nonce_of g IDX) 0 ts (resolve_hash h hg) hg true) as [g1|] eqn:He; cbn; [|reflexivity].
         destruct (finalise_after_exec _ _ _ _ _ _ _ _ He) as (g2 & Hf). rewrite Hf. cbn. discriminate.
     - destruct (negb (g_wait g =? 0) || g_dirty g); cbn; [reflexivity|discriminate].
     - cbn. discriminate.
@@ -110,6 +111,7 @@ Section EngineP.
       destruct (W <? height g - n); cbn; [reflexivity|].
       destruct (n =? height g); cbn; [discriminate|].
       destruct (W + n <? g_maxb g); cbn; [reflexivity|discriminate].
+    - reflexivity.
   Qed.
 
   (* C05: each protocol violation is rejected. *)
